@@ -72,7 +72,7 @@ PLAN = {
         'explanation': 'the connect/disconnect decisions of ref_count and replay (the two callbacks set_ref_count registers on the inner subject) are extracted from /repo and verified with Verus against contracts taken from the property, over a ghost world of live source subscriptions; frame obligations are decided on the token tree (no cached observer in the connectables, per-subscription state in the subjects\' observable()); the call-sequence part of the property is checked by bounded conformance on the real types: Kani for publish (concrete call sequences, symbolic items), native runs with concrete payloads for ref_count/replay (their harnesses exceed 600 s under Kani). The obligations/discharged counts cover the Verus and syntactic obligations; nothing here is an unbounded proof of the call-sequence property as a whole, hence level other.',
         'engines': ['kani', 'syntactic', 'verus_units'],
         'technique': 'Verus contracts on the connect/disconnect callbacks of ref_count and replay and on publish::connect extracted from /repo (when the source is subscribed / unsubscribed) + Kani bounded call sequences on the real publish/ref_count/replay with a hot instrumented source + frame obligations (no cached observer, per-subscription slots)',
-        'level_text': 'decisions proved over the model (count == 0 leaves no live source subscription; count == 1 connects exactly once from the never-connected state; nothing changes while connected; the reconnect obligation FAILS on the pinned tree and is an open known finding) + frame obligations (syntactic) + bounded conformance: number of source subscriptions, sharing among subscribers, stop on last unsubscribe and replay-from-the-beginning are checked on the real types for concrete call sequences (<=2 subscribers at once): publish under Kani (symbolic items; three of the four harnesses only in the thorough tier), ref_count/replay by native runs (concrete items)',
+        'level_text': 'decisions proved over the model (count == 0 leaves no live source subscription; count == 1 connects exactly once from the never-connected state; nothing changes while connected; count == 0 also empties the stored connection, so a first subscriber after everybody left connects again - repaired by fix c8cd3a5; a connection ended by the source itself is not re-made) + frame obligations (syntactic) + bounded conformance: number of source subscriptions, sharing among subscribers, stop on last unsubscribe and replay-from-the-beginning are checked on the real types for concrete call sequences (<=2 subscribers at once): publish under Kani (symbolic items; three of the four harnesses only in the thorough tier), ref_count/replay by native runs (concrete items)',
         'level_note': 'NOT a proof of the call-sequence property as a whole: the sequences are bounded stand-ins, labelled as such; ref_count/replay call sequences are beyond Kani here (> 600 s per harness); synchronous sources re-entering the subject during connect are covered by the bounded harnesses only',
         'design_ref': 'DESIGN.md 4.13',
     },
